@@ -310,6 +310,25 @@ func freshParts(fn *ssa.Function, v ssa.Value) (bool, string, []genUse) {
 						}
 						if hi >= 0 && lo >= 0 {
 							n = hi - lo
+						} else if ms, isMS := x.(*ssa.MakeSlice); isMS {
+							/* Bounds which are not constants but lengths:
+							key[copy(key, sentinel):] of make([]byte,
+							len(sentinel), …) spans nothing. */
+							hv, lv := ssa.Value(ms.Len), ssa.Value(nil)
+							if nil != sl.High {
+								hv = sl.High
+							}
+							if nil != sl.Low {
+								lv = sl.Low
+							}
+							hb, ho, hok := spanLenExpr(hv, ms)
+							lb, lo2, lok := "", int64(0), true
+							if nil != lv {
+								lb, lo2, lok = spanLenExpr(lv, ms)
+							}
+							if hok && lok && hb == lb {
+								n = ho - lo2
+							}
 						}
 						for _, r2 := range *sl.Referrers() {
 							if c2, ok := r2.(*ssa.Call); ok && (randFill[calleeName(c2.Common())] || ("io.ReadFull" == calleeName(c2.Common()) && isRandReader(c2.Common().Args[0])) || ("io.ReadAtLeast" == calleeName(c2.Common()) && isRandReader(c2.Common().Args[0]))) {
@@ -552,4 +571,56 @@ func pairingTokenUnder(p *Prog, ru *Rule, a *connectAnchors) {
 			checkPairingToken(p, ru, fn, dirs)
 		}
 	}
+}
+
+// spanLenExpr renders an integer value as "length of something + constant":
+// constants, len(x), copy(dst, src) where dst (the slice ms, of length
+// len(src)) and src are equally long, and sums and differences with
+// constants.  The base names the something (a field, or the value itself).
+func spanLenExpr(v ssa.Value, ms *ssa.MakeSlice) (string, int64, bool) {
+	keyOf := func(x ssa.Value) string {
+		x = stripConv(resolveCell(x), true)
+		if fv, base := loadedField(x); nil != fv {
+			return fmt.Sprintf("field:%s@%p", fv.Name(), resolveCell(base))
+		}
+		return fmt.Sprintf("%p", x)
+	}
+	if k, ok := constInt(v); ok {
+		return "", k, true
+	}
+	switch x := v.(type) {
+	case *ssa.BinOp:
+		if token.ADD == x.Op || token.SUB == x.Op {
+			if k, ok := constInt(x.Y); ok {
+				if b, o, ok := spanLenExpr(x.X, ms); ok {
+					if token.SUB == x.Op {
+						k = -k
+					}
+					return b, o + k, true
+				}
+			}
+			if k, ok := constInt(x.X); ok && token.ADD == x.Op {
+				if b, o, ok := spanLenExpr(x.Y, ms); ok {
+					return b, o + k, true
+				}
+			}
+		}
+	case *ssa.Call:
+		b, ok := x.Common().Value.(*ssa.Builtin)
+		if !ok {
+			return "", 0, false
+		}
+		switch b.Name() {
+		case "len":
+			return keyOf(x.Common().Args[0]), 0, true
+		case "copy":
+			/* min(len(dst), len(src)): decided when both are the same. */
+			if nil != ms && stripConv(resolveCell(x.Common().Args[0]), false) == ssa.Value(ms) {
+				if db, do, ok := spanLenExpr(ms.Len, nil); ok && 0 == do && db == keyOf(x.Common().Args[1]) {
+					return db, 0, true
+				}
+			}
+		}
+	}
+	return "", 0, false
 }
